@@ -6,7 +6,7 @@ META = {
     "property_id": "C15",
     "level": "model_checking",
     "technique": "TLA+ spec of EIP-7928 lists over the reference account model (BAL.tla: list = difference between the world at transaction start and after Finalise, plus never-reverted access sets) with a TLC-checked model of the journal stash mechanism (MCBAL.tla); TLC behaviours replayed on state.StateDB under Amsterdam rules comparing the list returned by every Finalise and the merged block list; recorded random blocks validated by StateDBTrace.tla (CheckBAL) including the encoding object",
-    "text": "TLC explores every Amsterdam-rule operation sequence with nested snapshots/reverts over a small universe and checks that the mechanism the code uses (stash the pre-transaction balance/nonce/code at the first write, drop the stash when a revert removes the last journal entry of that kind, dirty storage = slots differing from the committed value, record only for normally finalised accounts) records exactly the net difference between transaction start and end (invariant MechanismIsNetDiff), that every change lies in an accessed account/slot and that merged block lists are functional per index. Binding: behaviours sampled by TLC are replayed on real StateDBs and at every Finalise the returned ConstructionBlockAccessList (projected per account: balance/nonce/code change, written slots with values, read slots) must equal the model's expected list, the Merge of the lists must equal the model's merged list; seeded random blocks (reverted frames, change-and-restore of balances, storage and code, self-destructs, reads inside reverted frames) are recorded and TLC validates every call, every returned list and at the end of each block the encoding object (sorted by address/slot/index, strictly increasing, duplicate free, reads and writes disjoint, indexes within the block). The driver additionally requires Validate to accept, RLP encode/decode to round-trip byte for byte, Hash to equal keccak(rlp) and be independent of construction order, the size and index bounds to be exact, and ten kinds of corruption (swaps, duplicates, empty entries, read/write overlap) to be rejected by Validate.",
+    "text": "TLC explores every Amsterdam-rule operation sequence with nested snapshots/reverts over a small universe and checks that the mechanism the code uses (stash the pre-transaction balance/nonce/code at the first write, drop the stash when a revert removes the last journal entry of that kind, dirty storage = slots differing from the committed value, record only for normally finalised accounts) records exactly the net difference between transaction start and end (invariant MechanismIsNetDiff), that every change lies in an accessed account/slot and that merged block lists are functional per index. Binding: behaviours sampled by TLC are replayed on real StateDBs and at every Finalise the returned ConstructionBlockAccessList (projected per account: balance/nonce/code change, written slots with values, read slots) must equal the model's expected list, the Merge of the lists must equal the model's merged list; seeded random blocks (reverted frames, change-and-restore of balances, storage and code, self-destructs, reads inside reverted frames) are recorded and TLC validates every call, every returned list and at the end of each block the encoding object (sorted by address/slot/index, strictly increasing, duplicate free, reads and writes disjoint, indexes within the block). The driver additionally requires Validate to accept, RLP encode/decode to round-trip byte for byte, Hash to equal keccak(rlp) and be independent of construction order, the size and index bounds to be exact, and ten kinds of corruption (swaps, duplicates, empty entries, read/write overlap) to be rejected by Validate; finally TLC enumerates all small abstract encoding lists (sorted, unsorted, duplicated in every dimension, indexes beyond the block) with the verdict of the specification's ordering predicate and Validate must accept exactly those (function binding).",
     "note": "Trusts TLC and the projections in harness/statekit (ProjectTxBAL/ProjectBlockBAL). Observables are read from a Copy() of the StateDB so that the projection adds no reads. Histories are EVM-feasible (StateDB.tla F1-F5); RLP itself is specified in spec/codec/RLP.tla (C01), here the real encoder is used for the round trip. ValidateSize is checked at the exact limit only.",
     "design_ref": "3.3 C15",
 }
@@ -33,6 +33,17 @@ def run(ctx):
     bp = os.path.join(ctx.scratch, "mbt.json")
     write_json(bp, bs)
     ctx.drive(drv, ["-mode", "mbt", "-in", bp], name="c15-mbt", timeout=ctx.pick(1800, 7200))
+
+    # FN: Validate accepts exactly the lists the ordering rule of the specification accepts
+    res = ctx.model_check("state/MCBALCases", "state/MCBALCases" if not ctx.thorough else "state/MCBALCasesThorough",
+                          tags=("CASE",), timeout=ctx.pick(1800, 7200), name="MCBALCases", workers=4)
+    cases = res.lines.get("CASE", [])
+    if not cases:
+        raise InfraError("no cases emitted")
+    cp = os.path.join(ctx.scratch, "cases.json")
+    write_json(cp, cases)
+    del cases, res
+    ctx.drive(drv, ["-mode", "cases", "-in", cp], name="c15-cases", timeout=ctx.pick(1800, 7200))
 
     # V: recorded Amsterdam blocks validated by the trace specification with the BAL observer
     tp = os.path.join(ctx.scratch, "trace.ndjson")
